@@ -374,7 +374,34 @@ def rule_l5(ctx):
     rep.floor('scalar lookup arms', n, 18)
 
 
+def rule_l6(ctx):
+    """a stage that selects examples by a stored index array reaches its input only through point lookups:
+    iterating the input would evaluate examples that are not selected"""
+    rep = ctx.report
+    n = 0
+    for cls in K.family(ctx):
+        init = cls.own('__init__')
+        if init is None or not init.is_function:
+            continue
+        selects = any(isinstance(x, ast.Subscript) and isinstance(x.value, ast.Call) and (A.dotted(x.value.func) or '').endswith('arange')
+                      for x in ast.walk(init.node)) and cls.own('__iter__') is not None
+        if not selects or cls.name == 'ReShuffleDataset':
+            continue
+        n += 1
+        for mname in ('__iter__', '__getitem__'):
+            mem = cls.own(mname)
+            if mem is None:
+                continue
+            effs = ctx.effects.closed_effects(cls, mname)
+            bad = [e for e in effs if e.etype in ('ITERATE', 'MATERIALISE')]
+            rep.ob('L6', K.key(cls, mname, 'selection-by-lookup-only'), not bad, bad[0].node if bad else mem.node,
+                   '' if not bad else 'the selecting stage iterates its input (%s): user functions run on examples that '
+                   'belong to no result (e.g. everything before the start of a slice)' % A.short(bad[0].node, 60))
+    rep.floor('selecting stages', n, 1)
+
+
 def run(ctx):
+    rule_l6(ctx)
     rule_l1(ctx)
     rule_l2(ctx)
     rule_l3(ctx)
